@@ -41,7 +41,8 @@ def jobs_for(shapes: list, seed: int) -> list:
     # the PowerPoint-authored charts of the corpus (supported plot families; the bar+line chart among them): replace_data with two shapes each
     supported = {v[3] for v in CH.chart_types().values()}
     bykind = {k: [s for s in shapes if s["kind"] == k and 1 <= len(s["series"]) <= 6 and not s.get("tod")] for k in ("cat", "xy", "bubble")}
-    for n, c in enumerate(c for c in CH.corpus_charts() if c[2] and all(k in supported for k in c[4])):
+    # (a chart whose last plot holds no series cannot take new ones - AttributeError, judged by C07 - and is left out here)
+    for n, c in enumerate(c for c in CH.corpus_charts() if c[2] and all(k in supported for k in c[4]) and c[3][-1] > 0):
         kind = "bubble" if c[2] == "bubbleChart" else "xy" if c[2] == "scatterChart" else "cat"
         pool = [s for s in bykind[kind] if c[2] != "pieChart" or len(s["series"]) == 1]
         for k in range(2):
